@@ -54,8 +54,10 @@ def gen_case(rng, tier, index):
         return {"n": rng.randint(0, 200), "trough": [vr, cols], "slice": rng.choice(["all", "col", "rows"]),
                 "col": rng.randrange(cols), "form": "trough"}
     if kind == "reject_empty":
-        return {"n": rng.randint(0, 20), "wells": [], "form": rng.choice(["list", "array", "2d0"]), "reject": "empty"}
-    bad = rng.choice([-1, -rng.randint(2, 1000), 2.5, 3.0, "3", None, float("nan"), float("inf"), -0.5, [3]])
+        return {"n": rng.randint(0, 20), "wells": [], "form": rng.choice(["list", "array", "2d0", "2dR0", "slice_beyond_last_column", "tuple"]),
+                "reject": "empty", "rows": rng.randint(1, 8), "cols": rng.randint(1, 3)}
+    bad = rng.choice([-1, -rng.randint(2, 1000), 2.5, 3.0, "3", None, float("nan"), float("inf"), -0.5, [3],
+                      {"__npf__": 3.75}, {"__npf__": 2.5}, {"__npf__": -0.4}, {"__npf32__": 2.5}, {"__npf__": 1e-9}])
     return {"n": bad, "wells": _ids(rng.randint(1, 8)), "form": "list", "reject": "n"}
 
 
@@ -78,6 +80,13 @@ def _materialise(case):
         return tuple(w)
     if form == "2d0":
         return np.zeros((0, 3), dtype=str)
+    if form == "2dR0":
+        return np.zeros((case.get("rows", 3), 0), dtype="U3")  # rows but no columns: still no well at all
+    if form == "slice_beyond_last_column":
+        import robotools
+
+        t = robotools.Trough("t", case.get("rows", 4), case.get("cols", 1), min_volume=0, max_volume=100)
+        return t.wells[:, case.get("cols", 1):]
     if form.startswith("2d:"):
         r, c = map(int, form[3:].split("x"))
         return np.array(w).reshape((r, c), order="F")
@@ -88,6 +97,10 @@ def run_case(ctx, case):
     import robotools
 
     n = dec(case["n"])
+    if isinstance(n, dict) and "__npf__" in n:
+        n = np.float64(n["__npf__"])
+    elif isinstance(n, dict) and "__npf32__" in n:
+        n = np.float32(n["__npf32__"])
     wells = _materialise(case)
     reject = case.get("reject")
     ctx.feature("form", case["form"])
